@@ -3,12 +3,14 @@
   real code on the same lines; bin/check diffs the streams (tie T2, DESIGN §3.2).
 -/
 import MajoranaVerif.Driver.C02
+import MajoranaVerif.Driver.Run
 
 def handle (line : String) : String :=
   let l := line.trimAscii.toString
   match Driver.words l with
   | "c16" :: rest => Driver.C02.c16 rest
   | "c02" :: _ => Driver.C02.c02 ((l.drop 4).toString)
+  | "run" :: _ => Driver.Run.run ((l.drop 4).toString)
   | _ => "bad-op"
 
 partial def loop (h : IO.FS.Stream) (out : IO.FS.Stream) : IO Unit := do
